@@ -3,6 +3,9 @@ package node
 import (
 	"fmt"
 
+	abci "github.com/tendermint/tendermint/abci/types"
+
+	"github.com/teleport-network/teleport/app"
 	packetcontract "github.com/teleport-network/teleport/syscontracts/xibc_packet"
 	packettypes "github.com/teleport-network/teleport/x/xibc/core/packet/types"
 )
@@ -16,15 +19,15 @@ func (c *Chain) Hook(name string) {
 	}
 	b := &c.Blocks[len(c.Blocks)-1]
 	b.Hooks = append(b.Hooks, HookAt{After: len(b.Txs), Name: name})
-	c.runHook(name)
+	runHookOn(c.App, b.Begin, c.Cfg.Name, name)
 }
 
-func (c *Chain) runHook(name string) {
+func runHookOn(a *app.Teleport, bb abci.RequestBeginBlock, chainName, name string) {
 	switch name {
 	case "setChainName":
-		ctx := c.App.BaseApp.NewContext(false, c.CurHdr)
-		if _, err := c.App.XIBCKeeper.PacketKeeper.CallEVM(ctx, packetcontract.PacketContract.ABI, packettypes.ModuleAddress,
-			packetcontract.PacketContractAddress, "setChainName", c.Cfg.Name); err != nil {
+		ctx := a.BaseApp.NewContext(false, bb.Header)
+		if _, err := a.XIBCKeeper.PacketKeeper.CallEVM(ctx, packetcontract.PacketContract.ABI, packettypes.ModuleAddress,
+			packetcontract.PacketContractAddress, "setChainName", chainName); err != nil {
 			panic(fmt.Sprintf("hook setChainName: %v", err))
 		}
 	default:
